@@ -207,7 +207,7 @@ def run(facts, tr, rep):
             rep.ob("C19.LATENCY", skey(b, "sleep#%d" % n), ok, c.where(),
                    "the injected latency is from_millis(x), x drawn from as_millis(min_latency) ..= as_millis(max_latency) (or min when the range is empty)" if ok else detail)
             edges = dominating_edges(tr, b, c.bb)
-            rep.ob("C19.LATENCY", skey(b, "sleep#%d|decided" % n), any(e["kind"] == "bool" and e["label"] == "true" for e in edges), c.where(),
+            rep.ob("C19.LATENCY", skey(b, "sleep#%d|decided" % n), any((e["kind"] == "bool" and e["label"] == "true") or (e["kind"] == "enum" and e["label"] == "Some") for e in edges), c.where(),
                    "the sleep happens only when latency injection was decided")
             continue
         fm = calls_in(tr, d, lambda x: x.name == "from_millis")
@@ -251,7 +251,7 @@ def run(facts, tr, rep):
                "the injected latency is from_millis(x), x drawn from as_millis(min_latency) ..= as_millis(max_latency) (or min when the range is empty)" if ok else detail)
         # only when latency was decided
         edges = dominating_edges(tr, b, c.bb)
-        rep.ob("C19.LATENCY", skey(b, "sleep#%d|decided" % n), any(e["kind"] == "bool" and e["label"] == "true" for e in edges), c.where(),
+        rep.ob("C19.LATENCY", skey(b, "sleep#%d|decided" % n), any((e["kind"] == "bool" and e["label"] == "true") or (e["kind"] == "enum" and e["label"] == "Some") for e in edges), c.where(),
                "the sleep happens only when latency injection was decided")
 
 
